@@ -63,6 +63,16 @@ def apply_step(obj, st, via):
         obj.ctrlptsw = [[float(x) for x in frv(p)] for p in st["Pw"]]
     elif a == "read":
         info["value"] = read_view(obj, st["v"])
+    elif a == "reverse":
+        obj.reverse()
+    elif a == "transpose":
+        obj.transpose()
+    elif a == "flip":
+        operations.flip(obj, inplace=True)
+    elif a == "translate":
+        operations.translate(obj, [float(fr(x)) for x in st["vec"]], inplace=True)
+    elif a == "sample_size":
+        obj.sample_size = st["n"]
     else:
         raise ValueError("unknown action " + a)
     return info
@@ -83,6 +93,12 @@ def read_view(obj, v):
         return copy.deepcopy([list(x) for x in obj.bbox])
     if v == "ctrlpts2d":
         return copy.deepcopy([list(r) for r in obj.ctrlpts2d])
+    if v == "tess":
+        obj.tessellate()
+        return [[list(x.data) for x in obj.vertices], [list(f.vertex_ids) for f in obj.faces]]
+    if v == "sample_size":
+        ss = obj.sample_size
+        return [ss] if isinstance(ss, int) else list(ss)
     raise ValueError("unknown view " + v)
 
 
